@@ -116,6 +116,10 @@ def install(ctx):
 
 
 def gen_case(rng, tier, ctx, i):
+    if rng.random() < 0.12:
+        from . import c04
+        ctx.count("count:bounded-sweep-formulas")
+        return {"recipe": recipes.strip(c04.next_sweep(i, ctx.seed))}
     o = common.varied_opts(rng, tier, p_int=0.2, p_big=0.05)
     if rng.random() < 0.5:
         o.kinds = ["Imply", "Not", "XNor", "All", "Any", "AtLeast", "AtMost", "Xor"]
